@@ -3,20 +3,22 @@
 import json, os, subprocess
 ROOT = os.path.dirname(os.path.dirname(os.path.abspath(__file__)))
 SIM_NOTE = ("Trusted base: the Python reference models (verif/models.py), the SIM runner's command semantics (cxx/probe_sim.h), "
-            "Hypothesis. SIM drives the real Builder/Plan/DependencyScan/BuildLog/DepsLog; RealCommandRunner and ninja.cc are not in the loop here.")
+            "Hypothesis. The SIM part drives the real Builder/Plan/DependencyScan/BuildLog/DepsLog in-process with a scripted command runner; "
+            "RealCommandRunner, SubprocessSet and ninja.cc are reached only by the parts that run the real binary (vtool commands in a tmpfs directory), "
+            "which C01-C07, C16, C18, C19 and C20 have and C10, C11, C17 do not. Saved shrunk cases under regress/ are replayed first, outside Hypothesis.")
 CHECKS = {
- "C01": dict(level="exploration", engine="SIM", technique="model-based property testing (Hypothesis): generated graphs x histories x schedules, content oracle = clean-build evaluator",
+ "C01": dict(level="exploration", engine="SIM+E2E", technique="model-based property testing (Hypothesis): generated graphs x histories x schedules, content oracle = clean-build evaluator",
              text="Generated-input search with an explicit oracle: after every successful build the content of every node in the requested closure equals a pure clean-build evaluator of the current sources/manifest. Exploration, not proof: thousands of histories per run, shrunk on failure.",
              ref="4/C01", note=SIM_NOTE),
- "C02": dict(level="exploration", engine="SIM", technique="model-based property testing: every successful build is repeated and must start nothing",
+ "C02": dict(level="exploration", engine="SIM+E2E", technique="model-based property testing: every successful build is repeated and must start nothing",
              text="Same histories as C01; each successful build is immediately repeated and must be a no-op.", ref="4/C02", note=SIM_NOTE),
- "C03": dict(level="exploration", engine="SIM", technique="differential testing against a reference make-semantics model (exact run set, both directions)",
+ "C03": dict(level="exploration", engine="SIM+E2E", technique="differential testing against a reference make-semantics model (exact run set, both directions)",
              text="The set of commands started by every failure-free incremental build is compared for equality with an independent make-semantics model; known root causes are attributed by counterfactual switches of that model only.", ref="4/C03", note=SIM_NOTE),
- "C04": dict(level="exploration", engine="SIM", technique="trace-invariant property testing over harness-owned schedules",
+ "C04": dict(level="exploration", engine="SIM+E2E", technique="trace-invariant property testing over harness-owned schedules",
              text="At every StartCommand the trace must show all producers finished, directories present and the response file in place; schedules are chosen by the generator.", ref="4/C04", note=SIM_NOTE),
- "C05": dict(level="fault_enumeration", engine="SIM", technique="fault-injection property testing: generated fault maps x -k x -j x schedules with trace and log invariants",
+ "C05": dict(level="fault_enumeration", engine="SIM+E2E", technique="fault-injection property testing: generated fault maps x -k x -j x schedules with trace and log invariants",
              text="Commands are made to fail (several exit codes, with/without touching outputs) and the containment, exit-status, logging and retry clauses are checked on the trace and on the re-loaded logs.", ref="4/C05", note=SIM_NOTE),
- "C06": dict(level="exploration", engine="SIM", technique="trace-invariant property testing (limits, once-only, retrospective no-idle, termination)",
+ "C06": dict(level="exploration", engine="SIM+E2E", technique="trace-invariant property testing (limits, once-only, retrospective no-idle, termination incl. 'success implies everything needed was started'); all completion orders enumerated for small graphs; real binary as a fifo-jobserver client (tokens returned, concurrency, must terminate)",
              text="Concurrency and pool limits, at-most-once, no idle slot and termination are checked on traces of generated builds with pools, faults and schedules.", ref="4/C06", note=SIM_NOTE),
  "C07": dict(level="fault_enumeration", engine="SIM+E2E", technique="fault-injection property testing: generated histories stopped at enumerated crash points, runner boundaries, interrupts (SIM) and by real signals / SIGKILL / hook crash points (real binary), recovery compared with the clean-build evaluator",
              text="The last build of a generated history is stopped at one of 13 named points between persistence steps (1st-3rd hit), at any command-runner call, or by an interrupt with commands that did or did not modify their outputs; the real binary is additionally hit by SIGINT/SIGTERM/SIGHUP, SIGKILL of the tree and crashes inside -t recompact. The next invocation must start, succeed, reproduce the clean tree and converge; the interrupt contract (130, lock file, modified outputs removed, children gone) is checked.",
@@ -27,7 +29,7 @@ CHECKS = {
  "C09": dict(level="fault_enumeration", engine="LOG", technique="stateful property testing of DepsLog sessions with every-offset truncation, garbage tails and structured damage, oracle = independent binary-format parser + recorded-deps model",
              text="Generated multi-session histories on a real .ninja_deps; every truncation offset (exhaustive up to 3000 bytes), random tails and structurally malformed records after a valid prefix, each continued by an appending session and a reload; deps loaded == fold of complete well-formed records == most recently recorded deps; file size after recovery == end of last good record.",
              ref="4/C09", note="Trusted base: M-depslog parser in verif/props/C09.py, the probe's op interpreter. Two genuine defects found by this check were repaired (fix: commits 33f8d0f, 9f3b7db)."),
- "C18": dict(level="exploration", engine="SIM", technique="model-based property testing of the Cleaner on generated graphs, tree states and scopes, oracle = reference scope computation (both directions)",
+ "C18": dict(level="exploration", engine="SIM+E2E", technique="model-based property testing of the Cleaner on generated graphs, tree states and scopes, oracle = reference scope computation (both directions); `ninja -t cleandead` of the real binary after removed statements, plain / after -t recompact / with a log due for recompaction",
              text="After a generated history the tree is perturbed and one clean scope (all, -g, targets, rules, cleandead after statements were removed; each also with -n) runs through the real Cleaner on the virtual disk with the real logs; removed files must equal the existing files of the scope, and the following build must reproduce the clean tree.",
              ref="4/C18", note=SIM_NOTE),
  "C19": dict(level="exploration", engine="E2E", technique="property testing of the real binary's tools: snapshot-equality and model-agreement oracles on generated graphs/states/tools, strict JSON recogniser with byte-exact round trip for compdb",
@@ -64,9 +66,10 @@ CHECKS = {
 ENGINES = [
  dict(name="SIM", path="cxx/probe_sim.h + verif/simrun.py", serves_properties=["C01", "C02", "C03", "C04", "C05", "C06", "C07", "C10", "C11", "C17", "C18"],
       kind_free_text="in-process build simulator: virtual disk with logical clock, scripted command runner owning the schedule, real log files; forked per request by the probe server"),
- dict(name="E2E", path="verif/e2e.py, cxx/vtool.c", serves_properties=["C01", "C02", "C03", "C05", "C06", "C07", "C19", "C20"],
+ dict(name="E2E", path="verif/e2e.py, cxx/vtool.c", serves_properties=["C01", "C02", "C03", "C04", "C05", "C06", "C07", "C16", "C18", "C19", "C20"],
       kind_free_text="the real ninja binary (built from the working tree, hooks compiled in but inert) in a scratch directory, commands are the vtool helper with the SIM's content function; jobserver fifo, signals, crash points via environment"),
- dict(name="SIM+E2E", path="verif/props/C07.py", serves_properties=["C07"], kind_free_text="both engines"),
+ dict(name="SIM+E2E", path="verif/props/simprops.py, C06.py, C07.py, C18.py", serves_properties=["C01", "C02", "C03", "C04", "C05", "C06", "C07", "C18"],
+      kind_free_text="both engines: the SIM campaigns (incl. all-schedules enumeration and the late-targets runner) plus the same oracles through the real binary; a real binary that does not terminate within the limit is a finding, not a harness error"),
  dict(name="E2E+SIM", path="verif/props/C20.py", serves_properties=["C20"], kind_free_text="both engines"),
  dict(name="LOG", path="cxx/probe_misc.h (buildlog/depslog op interpreters) + verif/props/C08.py, C09.py", serves_properties=["C08", "C09"],
       kind_free_text="real BuildLog/DepsLog objects on real files driven by generated op lists inside the forked probe; files are cut from outside at every offset"),
